@@ -132,7 +132,8 @@ func (p *parser) jumpLength() (int, error) {
 		return length, err
 	}
 
-	if length <= 0 {
+	if length <= 0 || offset+length < offset {
+		// Also rejects a length so large that offset+length wraps around.
 		return length, errors.New("Invalid length")
 	}
 
